@@ -8582,6 +8582,10 @@ func (p *parser) parseStmtsUpTo(end js_lexer.T, opts parseStmtOpts) []js_ast.Stm
 					}
 				}
 			}
+		} else if expr, ok := stmt.Data.(*js_ast.SExpr); ok {
+			if str, ok := expr.Value.Data.(*js_ast.EString); ok && !str.PreferTemplate {
+				expr.IsStringThatIsNotADirective = true
+			}
 		}
 
 		stmts = append(stmts, stmt)
